@@ -158,7 +158,8 @@ CHECKS = {
              ">=2 unconfirmed predecessors and >=1 custom-plasma block was offered",
         assumptions=HIST_ASSUME,
         jobs=[dict(test="TestC12Pow", quick=T(4, 25), thorough=T(8, 400, 0, 3000)),
-              dict(test="TestC12Plasma", quick=T(4, 40, 50), thorough=T(8, 200, 80, 3000))],
+              dict(test="TestC12Plasma", quick=T(4, 40, 50), thorough=T(8, 200, 80, 3000)),
+              dict(test="TestC12Race", race=True, quick=T(1, 40), thorough=T(4, 300, 0, 3000))],
     ),
     "C13": dict(
         level="exploration",
